@@ -281,6 +281,18 @@ def gen_history(rng, tier, i):
     ops = ops + extra
     if extra and rng.random() < 0.5:
         ops.append(['update'])
+    if rng.random() < 0.3 and not any(op[0] in ('pickup', 'solve') for op in ops):
+        # the lens is restructured before it is saved: a surface put in between two others / taken out. (The library leaves
+        # the neighbours' media as they were, so the medium in front of a surface is no longer the one behind its
+        # predecessor: the saved lens must reproduce exactly that lens.)
+        K = len(c['spec']['surfaces'])
+        for _ in range(int(rng.integers(1, 3))):
+            if rng.random() < 0.65:
+                ops.append(['insert_surface', int(rng.integers(1, K + 1)), round(float(rng.uniform(1.3, 2.0)), 4),
+                            round(float(rng.choice([-1, 1]) * L.loguniform(rng, 20.0, 500.0)), 3),
+                            round(float(rng.uniform(0.1, 2.0)), 3)])
+            else:
+                ops.append(['remove_surface', int(rng.integers(1, K))])
     return dict(kind='history', spec=c['spec'], ops=ops, clean=clean, **_rays(rng))
 
 
@@ -406,6 +418,16 @@ def apply_ops(lens, ops, spec, rec):
             lens.add_wavelength(op[1], is_primary=op[2])
         elif name == 'scale_system':
             lens.scale_system(op[1])
+        elif name == 'insert_surface':
+            from optiland.materials import IdealMaterial
+            nS = len(lens.surface_group.surfaces)
+            lens.add_surface(index=max(1, min(op[1], nS - 1)), radius=op[3], thickness=op[4], material=IdealMaterial(n=op[2]))
+        elif name == 'remove_surface':
+            nS = len(lens.surface_group.surfaces)
+            if not (1 <= op[1] < nS - 1) or lens.surface_group.surfaces[op[1]].is_stop or nS <= 3:
+                rec.cls('remove-surface-skipped')
+                continue
+            lens.surface_group.remove_surface(op[1])
         elif name == 'optimise':
             from optiland.optimization import OptimizationProblem, OptimizerGeneric
             radii = np.ravel(lens.surface_group.radii)
@@ -852,7 +874,7 @@ def check_case(case, rec):
         else:
             done = apply_ops(lens, case['ops'], spec, rec)
             flags.add('history-clean' if case.get('clean') else 'history-with-vertex-moving-ops')
-            flags |= {f'history-{d}' for d in done if d in ('scale_system', 'optimise')}
+            flags |= {f'history-{d}' for d in done if d in ('scale_system', 'optimise', 'insert_surface', 'remove_surface')}
             if done & {'set_thickness', 'solve', 'scale_system', 'var-thickness', 'pickup-thickness'}:
                 flags.add('vertex-moved')
             if 'optimise' in done and (len(lens.solves) or any(p.attr_type == 'thickness' for p in lens.pickups.pickups)):
